@@ -110,7 +110,7 @@ theorem skel_tx_commit_done (s : Sys) (t : Tx) (p : Proposal) (h : t.commit = .d
 /-- INITIALIZED (transaction): open the Validate phase and wake the next transaction of the log,
     unless the predecessor transaction is SERIALIZABLE and not yet VALIDATED -/
 theorem skel_tx_initialize_done (s : Sys) (t : Tx) (p : Proposal) (pl : Tx) (b : Bool) (h : t.init = .done) :
-    proj (v2sk_tx_initialize (gTxInitOf t false p b pl (s.tx? p.prev).isNone ((s.tx? p.prev).getD default))) =
+    proj (v2sk_tx_initialize (gTxInitOf t true false p b pl (s.tx? p.prev).isNone ((s.tx? p.prev).getD default))) =
       planTraceTx (if waitsForSerializable s [p] .validated then .nop
         else { effects := [.tx t.index t.version .openValidate], requeue := some (.tx (t.index + 1)) }) := by
   unfold v2sk_tx_initialize
@@ -127,7 +127,7 @@ theorem skel_tx_initialize_done (s : Sys) (t : Tx) (p : Proposal) (pl : Tx) (b :
 theorem skel_tx_initialize_listed (s : Sys) (t : Tx) (p : Proposal) (q : Tx) (b : Bool)
     (h : t.init = .opened) (hprops : t.proposals = some [(p.target, p.index)])
     (hp : s.prop? (p.target, p.index) = some p) :
-    proj (v2sk_tx_initialize (gTxInitOf t false p (s.tx? (t.index - 1)).isNone ((s.tx? (t.index - 1)).getD default) b q)) =
+    proj (v2sk_tx_initialize (gTxInitOf t true false p (s.tx? (t.index - 1)).isNone ((s.tx? (t.index - 1)).getD default) b q)) =
       (if waitsPrevInit s t then [.ret "nil" []]
        else .set "allInitialized" "true" ::
          ((if p.init = .none ∨ p.init = .opened then [.set "allInitialized" "false"] else []) ++
@@ -139,6 +139,31 @@ theorem skel_tx_initialize_listed (s : Sys) (t : Tx) (p : Proposal) (q : Tx) (b 
   · rcases ph_cases4 p.init with hi | hi | hi | hi <;> simp [hi] <;> skel_tx
   · rcases ph_cases4 pl.init with hl | hl | hl | hl <;> rcases ph_cases4 p.init with hi | hi | hi | hi <;>
       simp [hl, hi] <;> skel_tx
+
+/-- INITIALIZING (transaction), proposals not yet listed, a change of ONE target: the proposal is
+    created unless it exists already (an earlier, interrupted pass), and in BOTH cases its id is
+    listed in `Status.Proposals` (the `append` is outside the not-found block) -/
+theorem skel_tx_initialize_create (s : Sys) (t : Tx) (tgt : Tgt) (ch : Config.VMap) (q : Tx) (b : Bool) (p : Proposal)
+    (h : t.init = .opened) (hprops : t.proposals = none) (hrb : t.isRollback = false)
+    (hch : t.changes = [(tgt, ch)]) (hw : waitsPrevInit s t = false) :
+    txInitProposals s t =
+      { effects := initCreatesChange s t ++ [.tx t.index t.version (.setProposals [(tgt, t.index)])] } ∧
+    proj (v2sk_tx_initialize (gTxInitOf t false (s.prop? (tgt, t.index)).isNone p
+        (s.tx? (t.index - 1)).isNone ((s.tx? (t.index - 1)).getD default) b q)) =
+      (initCreatesChange s t).flatMap effToksTx ++ [.set "proposals" "append(proposals, proposalID)"] ++
+        planTraceTx { effects := [.tx t.index t.version (.setProposals [(tgt, t.index)])] } := by
+  constructor
+  · simp [txInitProposals, hprops, hrb, hch]
+  unfold v2sk_tx_initialize initCreatesChange
+  unfold waitsPrevInit at hw
+  gTxInitOf_atoms
+  simp only [h, hrb, hch, List.filterMap_cons, List.filterMap_nil]
+  rcases Option.eq_none_or_eq_some (s.tx? (t.index - 1)) with ho | ⟨pl, ho⟩ <;> simp only [ho] at hw ⊢ <;>
+    rcases Option.eq_none_or_eq_some (s.prop? (tgt, t.index)) with hq | ⟨q', hq⟩ <;> simp only [hq]
+  · skel_tx
+  · skel_tx
+  · rcases ph_cases4 pl.init with hl | hl | hl | hl <;> simp [hl] at hw <;> simp [hl] <;> skel_tx
+  · rcases ph_cases4 pl.init with hl | hl | hl | hl <;> simp [hl] at hw <;> simp [hl] <;> skel_tx
 
 /-- a listed proposal that is not found ends the invocation without a write (every loop) -/
 theorem skel_tx_missing (t : Tx) (p : Proposal) (q : Tx) (b : Bool) :
